@@ -18,8 +18,8 @@
 import contextlib
 
 
-def augment_exception_message_and_reraise(exception, message):
-  """Reraises `exception`, appending `message` to its string representation."""
+def _make_exception_proxy(exception, message):
+  """Returns a proxy for `exception` with `message` appended, or None."""
 
   class ExceptionProxy(type(exception)):
     """Acts as a proxy for an exception with an augmented message."""
@@ -48,8 +48,24 @@ def augment_exception_message_and_reraise(exception, message):
     try:
       proxy = BaseException.__new__(ExceptionProxy)
     except TypeError:
-      raise exception  # Can't build a proxy; keep the original exception.
+      return None
   proxy.args = exception.args
+  if isinstance(exception, StopIteration):
+    # The interpreter reads this slot directly (`yield from`, `await`).
+    proxy.value = exception.value
+  return proxy
+
+
+def augment_exception_message_and_reraise(exception, message):
+  """Reraises `exception`, appending `message` to its string representation."""
+  try:
+    proxy = _make_exception_proxy(exception, message)
+  except Exception:  # pylint: disable=broad-except
+    # The class can't be subclassed, its `__new__` refuses what it is given, its
+    # `args` can't be set, ...
+    proxy = None
+  if proxy is None:
+    raise exception  # Can't build a proxy; keep the original exception.
   raise proxy.with_traceback(exception.__traceback__)
 
 
